@@ -36,6 +36,16 @@ IoPlan ==
     /\ An.n \in {"SetBad", "SetOld", "AddUnknown"} => file.clean /\ last.a.n = "Write"
     /\ An.n = "HandWrite" => file.style = "none"
     /\ An.n = "Read" => An.o = 2 /\ last.a.n \in {"New", "Assign", "Write"}
+\* the same stories with three configuring assignments and any first assignment on the reading object (thorough)
+IoPlanT ==
+    /\ An.n \in {"Assign", "AssignBad", "AssignUnknown"} =>
+          \/ An.o = 1 /\ file.style = "none" /\ Lvl <= 3
+          \/ An.o = 2 /\ file.style # "none" /\ An.n = "Assign" /\ An.r \in {"a", "b"} /\ val[2] = AllD /\ last.a.n = "New"
+    /\ An.n = "New" => file.style # "none" /\ last.a.n \in {"Write", "SetBad", "SetOld", "AddUnknown", "HandWrite"}
+    /\ An.n = "Write" => An.o = 1 /\ (file.style = "none" \/ (An.style = "medium" /\ last.a.n = "Read"))
+    /\ An.n \in {"SetBad", "SetOld", "AddUnknown"} => last.a.n \in {"Write", "SetBad", "SetOld", "AddUnknown"} /\ Lvl <= 6
+    /\ An.n = "HandWrite" => file.style = "none"
+    /\ An.n = "Read" => An.o = 2 /\ last.a.n \in {"New", "Assign", "Write"}
 \* one or two assignments on object 1, a copy (any way), then one thing on either object
 CopyPlan ==
     /\ An.n \in {"Assign", "AssignBad", "AssignUnknown", "GetSet", "Revert"} =>
@@ -51,4 +61,5 @@ View == <<objs, val, file, err, inv>>
 Emit == PrintT(ToJson([lvl |-> TLCGet("level"), from |-> St, act |-> last'.a, to |-> St']))
 EmitIo == IoPlan /\ Emit
 EmitCopy == CopyPlan /\ Emit
+EmitIoT == IoPlanT /\ Emit
 =====================================================================================================
